@@ -56,6 +56,35 @@ def scn_svd(T, case):
     T.prove("C02.svd_solve.bounded.exact_on_consistent_well_conditioned_systems", T.same(got, g, rtol=1e-7, atol=1e-9) if not T.symbolic else True)
 
 
+# ----------------------------------------------------------------------------------- fewer equations than unknowns (bounded)
+def cases_svd_under(tier):
+    """More variables than surviving perturbations: the system has fewer equations than unknowns.  Bounded run-time checking only."""
+    for rows, n in ((1, 2), (2, 3), (2, 4), (3, 5)) + (((1, 6), (4, 7), (5, 12)) if tier == "thorough" else ()):
+        yield "rows%d-n%d" % (rows, n), {"rows": rows, "n": n, "__concrete_only__": True}
+
+
+def scn_svd_under(T, case):
+    """The solve returns normally with one entry per unknown; for a well-conditioned full-row-rank system the result solves every
+    equation and is the minimum-norm solution (it lies in the row space)."""
+    rows, n = case["rows"], case["n"]
+    f = T.func(MG, "_invert_linear_equations")
+    M = T.real("M", (rows, n))
+    v = T.real("v", (rows,))
+    s = np.linalg.svd(np.asarray(M), compute_uv=False)
+    T.assume(bool(s.size == rows and (s[-1] ** 2) >= 0.01 * np.sum(s**2) and s[-1] > 1e-8))
+    try:
+        got = f(M, v)
+    except Exception as exc:  # noqa: BLE001
+        T.fail("C02.svd_under.returns_normally_with_fewer_equations_than_unknowns", "%s: %s" % (type(exc).__name__, exc))
+        return
+    T.prove("C02.svd_under.returns_normally_with_fewer_equations_than_unknowns", True)
+    T.prove("C02.svd_under.result_has_one_entry_per_unknown", tuple(np.shape(got)) == (n,))
+    if tuple(np.shape(got)) == (n,):
+        T.prove("C02.svd_under.result_solves_every_equation", bool(np.allclose(M @ got, v, rtol=1e-7, atol=1e-9)))
+        y = np.linalg.lstsq(np.asarray(M).T, np.asarray(got), rcond=None)[0]
+        T.prove("C02.svd_under.result_is_the_minimum_norm_solution", bool(np.allclose(np.asarray(M).T @ y, got, rtol=1e-7, atol=1e-9)))
+
+
 # ----------------------------------------------------------------------------------- gradients of affine ensembles
 def cases_gradient(tier):
     quick = tier == "quick"
@@ -94,7 +123,19 @@ def cases_gradient(tier):
         out[-1]["prior_function"] = prior
         add(1, 2, 2, 1, None, False, "mean")
         out[-1]["prior_function"] = prior
+    # ... or at a point that differs from x only in a FIXED variable (a nested optimization moves the fixed variables between the
+    # function and the gradient request): that is another point, the cached function values are not those of x
+    add(2, 1, 2, 1, [True, False], False, "mean")
+    out[-1]["prior_function"] = "fixed-differs"
+    # several estimators, mapped to the functions with gaps and interleaved (an estimator used by no function of a kind, functions
+    # of one estimator not adjacent): every function is differentiated with ITS estimator
+    add(2, 1, 1, 3, None, False, "mean", cw=[0.25, 0.75])
+    out[-1].update(ests=["mean", "mean", "stddev"], omap_est=[0, 2, 2])
+    add(2, 1, 1, 1, None, False, "mean", cw=[0.25, 0.75], K=3)
+    out[-1].update(ests=["stddev", "mean"], omap_est=[1], cmap_est=[0, 1, 0])
     if not quick:
+        add(3, 1, 1, 4, None, False, "mean", cw=[0.2, 0.3, 0.5], K=2)
+        out[-1].update(ests=["mean", "stddev", "mean", "stddev"], omap_est=[3, 0, 3, 0], cmap_est=[2, 1], __concrete_only__=True)
         add(3, 2, 2, 1, None, False, "mean")
         add(2, 3, 2, 1, None, False, "mean", fp=[[False, True, False], [False, False, False]])
         add(3, 2, 2, 2, [False, True], False, "mean", fr=[False, True, False])
@@ -121,7 +162,7 @@ def cases_gradient(tier):
         yield "R%dP%dN%dJ%dK%d/mask=%s/%s/%s/fr=%s/fp=%s/w=%s%s%s" % (
             c["R"], c["P"], c["N"], c["J"], c["K"], c["mask"], "merged" if c["merge"] else "per-realization", c["est"],
             "".join("F" if f else "o" for f in c["failed_real"]), "|".join("".join("F" if f else "o" for f in row) for row in c["failed_pert"]),
-            c["cw"], "/shared" if c["shared"] else "", "/identical" if c["identical"] else "") + ("/function-first-%s" % c["prior_function"] if c.get("prior_function") else "") + ("/nan-in-constraint-only" if c.get("fail_in") else ""), c
+            c["cw"], "/shared" if c["shared"] else "", "/identical" if c["identical"] else "") + ("/estimators=%s,%s,%s" % ("+".join(c["ests"]), c.get("omap_est"), c.get("cmap_est")) if c.get("ests") else "") + ("/function-first-%s" % c["prior_function"] if c.get("prior_function") else "") + ("/nan-in-constraint-only" if c.get("fail_in") else ""), c
 
 
 def scn_gradient(T, case):
@@ -179,26 +220,37 @@ def scn_gradient(T, case):
 
     sev = H.ScriptedEvaluator(T, ch, fobj, (lambda v, r, p, k: fobj(v, r, p, k, J, J + K)) if K else None)
     cfg = H.make_config(T, R, J, K, N, weights=cfgw, ow=ow, P=P, mask=case["mask"], merge=case["merge"], min_success=1, pert_min_success=pms,
-                        magnitudes=T.const(np.ones(N)), omap_est=None)
-    ests = [H.estimator(ch, case["est"], merge=case["merge"])]
+                        magnitudes=T.const(np.ones(N)), omap_est=case.get("omap_est"), cmap_est=case.get("cmap_est"))
+    est_names = case.get("ests") or [case["est"]]
+    ests = [H.estimator(ch, m, merge=case["merge"]) for m in est_names]
+
+    def method_of(j):
+        emap = case.get("omap_est") if j < J else case.get("cmap_est")
+        return est_names[0 if emap is None else emap[j if j < J else j - J]]
+
     ev = H.make_evaluator(T, ch, cfg, sev, estimators=ests, samplers=[H.FakeSampler(samples)])
     try:
         if case.get("prior_function"):
             # a function evaluation at xf, then a gradient-only request at x: the difference quotients must use f(x), whatever is cached
             if case["prior_function"] == "same":
                 xf = x.copy()
+            elif case["prior_function"] == "fixed-differs":
+                shift = T.real("fixed_variable_shift", (), lo=0.5, hi=2.0)
+                xf = T.np.array([x[i] if mask[i] else x[i] + shift for i in range(N)])
             else:
-                xf = T.real("x_function", (N,))
                 gap = 1e-9 if case["prior_function"] == "near" else 1.0
-                T.assume(T.any([(xf[i] - x[i] > gap) | (x[i] - xf[i] > gap) for i in range(N)]))
                 if case["prior_function"] == "near":
-                    T.assume(T.all([(xf[i] - x[i] < 1e-6) & (x[i] - xf[i] < 1e-6) for i in range(N)]))
+                    # another point, closer than 1e-6 in every coordinate (an offset of that size, so that the bounded runs draw such points)
+                    xf = x + T.real("x_function_offset", (N,), lo=-0.999e-6, hi=0.999e-6)
+                else:
+                    xf = T.real("x_function", (N,))
+                T.assume(T.any([(xf[i] - x[i] > gap) | (x[i] - xf[i] > gap) for i in range(N)]))
             ev.calculate(xf, compute_functions=True, compute_gradients=False)
             gres = ev.calculate(x, compute_functions=False, compute_gradients=True)[-1]
         else:
             fres, gres = ev.calculate(x, compute_functions=True, compute_gradients=True)
     except OptimizationAborted:
-        T.prove("C02.abort_only_from_stddev_estimator", case["est"] == "stddev")
+        T.prove("C02.abort_only_from_stddev_estimator", "stddev" in est_names)
         return
     nok = R - sum(fail_g)
     if nok < 1:
@@ -209,7 +261,7 @@ def scn_gradient(T, case):
         return
     G = gres.gradients
     # conditioning hypothesis: symbolic mode - part of the solve contract; concrete mode - evaluated on the reported matrices
-    pre = tot > 0
+    pre0 = tot > 0
     if not T.symbolic:
         pv = np.asarray(gres.evaluations.perturbed_variables) - np.asarray(x)
         if case["merge"]:
@@ -224,7 +276,8 @@ def scn_gradient(T, case):
             for i in range(N):
                 if not mask[i]:
                     T.prove("C02.fixed_variable_entries_are_exactly_zero", T.same(grads[jj, i], 0.0 * x[i]) if T.symbolic else float(grads[jj, i]) == 0.0)
-            if case["est"] == "mean":
+            pre = pre0
+            if method_of(j) == "mean":
                 want = truth[j]
             else:
                 vals = [T.total([slope(r, j)[i] * x[i] for i in range(N)]) + c0[r, j] if not fail_g[r] else 0.0 * x[0] for r in range(R)]
@@ -250,7 +303,7 @@ def scn_gradient(T, case):
                     T.prove("C02.merged.shared.is_exact_or_the_recorded_known_scaling", T.implies(pre, T.any(alts)))
             else:
                 eq = (lambda u, v: T.same(u, v)) if T.symbolic else (lambda u, v: T.close(u, v, 1e-7))
-                T.prove("C02.%s_gradient_exact_on_affine_ensemble[%s]" % (kind, case["est"]), T.implies(pre, T.all([eq(got[k], want[k]) for k in range(len(free))])))
+                T.prove("C02.%s_gradient_exact_on_affine_ensemble[%s]" % (kind, method_of(j)), T.implies(pre, T.all([eq(got[k], want[k]) for k in range(len(free))])))
     T.prove("C02.weighted_objective_gradient_is_weighted_sum", T.all([T.close(G.weighted_objective[i], T.total([ow[j] * G.objectives[j, i] for j in range(J)]), 1e-9) for i in range(N)]))
     for i in range(N):
         if not mask[i]:
@@ -267,11 +320,20 @@ def cases_rows(tier):
     for both in (True, False):
         yield "flt=[0, 0],None/objective-filter-drops-a-realization/evaluator-honours-the-activity-flags/%s" % ("functions+gradients" if both else "gradients-after-functions"), {
             "omf": [0, 0], "cmf": None, "both": both, "drop": True}
+    # filters on some functions only TOGETHER WITH a failed realization: failed in the function evaluation, or failed only through its
+    # perturbations (fewer than perturbation_min_success succeed) - a (third-party) filter may return a positive weight for it, and
+    # unfiltered functions carry the configured weight: either way a failed realization contributes nothing and the rest is renormalised
+    for omf, cmf in (([0, -1], [1]), ([-1, 0], [-1]), ([1, 1], [0])):
+        for both in (True, False):
+            yield "flt=%s,%s/R3/realization-1-failed/%s" % (omf, cmf, "functions+gradients" if both else "gradients-after-functions"), {
+                "omf": omf, "cmf": cmf, "both": both, "R": 3, "fail_real": 1}
+            yield "flt=%s,%s/R3P2/realization-2-failed-through-its-perturbations/%s" % (omf, cmf, "functions+gradients" if both else "gradients-after-functions"), {
+                "omf": omf, "cmf": cmf, "both": both, "R": 3, "P": 2, "fail_pert": (2, 0), "pms": 2}
 
 
 def scn_rows(T, case):
     """Each function's gradient is combined with the weights in force for THAT function (its filter's, or the configured ones)."""
-    R, P, N, J, K = 2, 1, 1, 2, 1
+    R, P, N, J, K = case.get("R", 2), case.get("P", 1), 1, 2, 1
     cfgw = T.real("weights", (R,), lo=0.001)
     W = [T.real("W%d" % f, (R,), lo=0.001) for f in range(2)]
     ow = T.real("objective_weights", (J,))
@@ -282,12 +344,18 @@ def scn_rows(T, case):
     ghosts = [[a[r, j, 0]] for r in range(R) for j in range(J + K)]
     inv = H.InvertContract(T, ghosts) if T.symbolic else None
     ch = H.Chain(T, stubs={(MG, "_invert_linear_equations"): inv} if T.symbolic else None)
+    fail_real, fail_pert, pms = case.get("fail_real"), case.get("fail_pert"), case.get("pms", 1)
+    failed = [r == fail_real or (fail_pert is not None and r == fail_pert[0]) for r in range(R)]
 
     garbage = T.real("garbage", (R, J + K))
     if case.get("drop"):
         W[0] = T.np.array([W[0][0], 0.0 * W[0][1]])
 
     def f(v, r, p, k, lo, hi):
+        if (p is None or p < 0) and r == fail_real:
+            return T.np.array([np.nan] * (hi - lo))
+        if p is not None and p >= 0 and (r == fail_real or (fail_pert is not None and (r, p) == tuple(fail_pert))):
+            return T.np.array([np.nan] * (hi - lo))
         vals = [a[r, j, 0] * v[0] + c0[r, j] for j in range(lo, hi)]
         if case.get("drop"):
             ctx = sev.calls[-1]["context"]
@@ -297,25 +365,37 @@ def scn_rows(T, case):
         return T.np.array(vals)
 
     sev = H.ScriptedEvaluator(T, ch, lambda v, r, p, k: f(v, r, p, k, 0, J), lambda v, r, p, k: f(v, r, p, k, J, J + K))
-    cfg = H.make_config(T, R, J, K, N, weights=cfgw, ow=ow, P=P, min_success=1, pert_min_success=1, magnitudes=T.const(np.ones(N)),
+    cfg = H.make_config(T, R, J, K, N, weights=cfgw, ow=ow, P=P, min_success=1, pert_min_success=pms, magnitudes=T.const(np.ones(N)),
                         omap_flt=case["omf"], cmap_flt=case["cmf"])
     ev = H.make_evaluator(T, ch, cfg, sev, filters=[H.AbstractFilter(W[0]), H.AbstractFilter(W[1])], samplers=[H.FakeSampler(S)])
     if case["both"]:
         fres, gres = ev.calculate(x, compute_functions=True, compute_gradients=True)
     else:
-        ev.calculate(x, compute_functions=True, compute_gradients=False)
+        (fres,) = ev.calculate(x, compute_functions=True, compute_gradients=False)
         (gres,) = ev.calculate(x, compute_functions=False, compute_gradients=True)
     if not T.symbolic:
-        T.assume(all(abs(float(S[r, 0, 0])) > 1e-6 for r in range(R)))
+        T.assume(all(abs(float(S[r, p, 0])) > 1e-6 for r in range(R) for p in range(P)))
+    if fail_pert is not None or fail_real is not None:
+        # a realization that failed only through its perturbations still has its function value: the FUNCTION estimate counts it
+        # (only the gradient evaluation excludes it), whether functions and gradients were requested together or one after the other;
+        # one whose function evaluation failed counts for nothing, whatever weight its row carries
+        T.prove("C02.rows.function_results_flag_only_the_realizations_whose_function_evaluation_failed", [bool(b) for b in fres.realizations.failed_realizations] == [r == fail_real for r in range(R)])
+        for jj in range(J):
+            fidx = -1 if case["omf"] is None else case["omf"][jj]
+            w = W[fidx] if fidx >= 0 else cfgw
+            totf = T.total([w[r] for r in range(R) if r != fail_real])
+            wantf = T.total([(w[r] / totf) * (a[r, jj, 0] * x[0] + c0[r, jj]) for r in range(R) if r != fail_real])
+            T.prove("C02.rows.function_value_counts_every_realization_whose_function_evaluation_succeeded", T.close(fres.functions.objectives[jj], wantf, 1e-7) if not T.symbolic else T.same(fres.functions.objectives[jj], wantf))
+    T.prove("C02.rows.gradient_results_flag_the_failed_realizations", [bool(b) for b in gres.realizations.failed_realizations] == failed)
     G = gres.gradients
     for kind, cnt, off, fmap, grads in (("objective", J, 0, case["omf"], G.objectives), ("constraint", K, J, case["cmf"], G.constraints)):
         for jj in range(cnt):
             fidx = -1 if fmap is None else fmap[jj]
             w = W[fidx] if fidx >= 0 else cfgw
-            tot = w[0] + w[1]
+            tot = T.total([w[r] for r in range(R) if not failed[r]])
             if not T.symbolic and case.get("drop"):
-                tot = float(w[0]) + float(w[1])
-            want = T.total([(w[r] / tot) * a[r, off + jj, 0] for r in range(R)])
+                tot = float(sum(float(w[r]) for r in range(R)))
+            want = T.total([(w[r] / tot) * a[r, off + jj, 0] for r in range(R) if not failed[r]])
             T.prove("C02.rows.%s_gradient_uses_the_weights_in_force_for_that_function" % kind, T.close(grads[jj, 0], want, 1e-7) if not T.symbolic else T.same(grads[jj, 0], want))
 
 
@@ -407,12 +487,31 @@ def scn_user_results(T, case):
     backtransform.scenario(T, case, "C02")
 
 
+# ------------------------------------------------------------------------------------ which variables a sampler is told to handle
+def cases_assignment(tier):
+    from contracts.C09 import cases_get_mask
+
+    for cid, c in cases_get_mask(tier):
+        if c["N"] <= (2 if tier == "quick" else 3):
+            yield cid, dict(c, prefix="C02.assignment")
+
+
+def scn_assignment(T, case):
+    """Exactness rests on 'samples are zero at fixed variables': the mask handed to every sampler is (free) AND (assigned to it), an
+    empty selection being an all-False mask - also for a sampler whose variables are all fixed (C09's scenario under this
+    property's prefix)."""
+    from contracts.C09 import scn_get_mask
+
+    scn_get_mask(T, case)
+
 SCENARIOS = [
     Scenario("gradient_affine", scn_gradient, cases_gradient, {"quick": 10, "thorough": 60}),
     Scenario("gradient_weight_rows", scn_rows, cases_rows, {"quick": 10, "thorough": 60}),
     Scenario("svd_solve_bounded", scn_svd, cases_svd, {"quick": 30, "thorough": 300}),
+    Scenario("svd_solve_fewer_equations_than_unknowns_bounded", scn_svd_under, cases_svd_under, {"quick": 10, "thorough": 100}),
     Scenario("svd_solve_body_by_library_contract", scn_svd_body, cases_svd_body, {"quick": 10, "thorough": 100}),
     Scenario("user_domain_results", scn_user_results, cases_user_results, {"quick": 3, "thorough": 20}),
+    Scenario("sampler_variable_assignment", scn_assignment, cases_assignment, {"quick": 1, "thorough": 1}),
 ]
 
 MANIFEST = {
